@@ -91,6 +91,10 @@ def scale_shapes():
         ('header-long-crit-and-many-labels', 'Header', lambda n: H(5, n + 1) + b'\x02' + H(4, n) + b''.join(t5(i) for i in range(n)) + b''.join(i4(i) + b'\x00' for i in range(n))),
         ('key-long-key-id-and-many-params', 'CoseKey', lambda n: H(5, n + 2) + b'\x01\x04\x02' + H(2, 10 * n) + b'k' * (10 * n) + b''.join(i4(i) + b'\x00' for i in range(n))),
         ('claims-long-issuer-and-many-names', 'ClaimsSet', lambda n: H(5, n + 1) + b'\x01' + H(3, 10 * n) + b'x' * (10 * n) + b''.join(t5(i) + b'\x00' for i in range(n))),
+        # … and inside a list that is kept as a set: one long text operation with many short ones (informed round 14: the registry label
+        # type's comparison cloning both texts)
+        ('key-ops-long-and-many-texts', 'CoseKey', lambda n: b'\xa2\x01\x04\x04' + H(4, n + 1) + H(3, 10 * n) + b'z' * (10 * n) + b''.join(t5(i) for i in range(n))),
+        ('crit-long-and-many-texts', 'Header', lambda n: b'\xa1\x02' + H(4, n + 1) + H(3, 10 * n) + b'z' * (10 * n) + b''.join(t5(i) for i in range(n))),
         ('claims-long-and-many-text-names', 'ClaimsSet', lambda n: H(5, n + 1) + H(3, 10 * n) + b'x' * (10 * n) + b'\x00' + b''.join(t5(i) + b'\x00' for i in range(n))),
     ]
 
@@ -304,6 +308,11 @@ class C02(Prop):
                 ops.append(mk('tbsd sign1 (sign1 %s %s - b05) %s %s' % (self.ph_form(p), E, pl, aad), planted=planted, k='struct'))
                 ops.append(mk('verifyd sign %s 0 %s %s vok' % (sg % '-', pl, aad), planted=planted, planted2=p2.hex(), k='verify'))
                 ops.append(mk('verify sign %s 0 %s vok' % (sg % pl, aad), planted=planted, planted2=p2.hex(), k='verify'))
+                # a received COSE_Sign and a signer built here (no stored bytes of its own): the body's stored bytes all the same (informed
+                # round 14: they were kept only when the signer had stored bytes too)
+                for sgb in ('(sig (ph - %s) %s b)' % (E, E), '(sig (ph - (hdr A-7 (crit) - b b b (cs) (rest))) %s b01)' % E):
+                    ops.append(mk('tbs sign (sign %s %s %s (sigs)) %s %s' % (self.ph_form(p), E, pl, aad, sgb), planted=planted, k='struct'))
+                    ops.append(mk('tbs sign (sign %s %s %s (sigs (sig %s %s b02))) %s %s' % (self.ph_form(p), E, pl, self.ph_form(p2), E, aad, sgb), planted=planted, k='struct'))
                 ops.append(mk('verify mac (mac %s %s %s b0a (rcps (rcp %s %s - (rcps)))) %s vok' % (self.ph_form(p), E, pl, self.ph_form(p2), E, aad), planted=planted, k='verify'))
                 ops.append(mk('decrypt enc (enc %s %s b0102 (rcps (rcp %s %s b03 (rcps)))) %s cat' % (self.ph_form(p), E, self.ph_form(p2), E, aad), planted=planted, k='decrypt'))
                 ops.append(mk('decrypt rcp (rcp %s %s b0102 (rcps (rcp %s %s b03 (rcps)))) %s %s cat' % (self.ph_form(p), E, self.ph_form(p2), E, r.choice(['EncRecipient', 'MacRecipient', 'RecRecipient']), aad), planted=planted, k='decrypt'))
@@ -431,6 +440,14 @@ class StructProp(Prop):
     def phs(self, g, r):
         x = r.random()
         if x < 0.03: return r.choice(self.UNSER), None      # repeats a label: serialising it fails, the structure functions refuse (panic)
+        if 0.72 <= x < 0.75:
+            # stored bytes beside a parsed view that could not be serialised (edited after decoding): the stored bytes are what counts, the
+            # view is never encoded (informed round 14: `unwrap_or(encode()?)` evaluated eagerly)
+            p = bytes.fromhex(r.choice(NONCANON_PH)); 
+            return '(ph b%s %s)' % (p.hex(), r.choice(['(hdr - (crit) - b b b (cs) (rest i9 i1 i9 i2))', '(hdr A-7 (crit) - b b b (cs) (rest i1 i5))', '(hdr - (crit) - b3131 b b (cs) (rest t78 i1 t78 i2))'])), p
+        if 0.75 <= x < 0.78:
+            # values the serializer writes but the parser refuses or folds (16-byte negative bignum, 9-byte bignum): still just values
+            return '(ph - (hdr - (crit) - b b b (cs) (rest i1000 %s)))' % r.choice(['(tag 3 bffffffffffffffffffffffffffffffff)', '(tag 2 bffffffffffffffffff)', '(tag 3 b010000000000000000)', '(arr (tag 3 bffffffffffffffffffffffffffffffff))']), None
         if 0.66 <= x < 0.72:
             # an extra entry under the label of a typed field that is *unset*: an ordinary entry, emitted as given (informed round 13: label 4
             # recorded as emitted although the key id was empty); a private-use algorithm holding any integer, an assigned one too (only a
